@@ -480,10 +480,11 @@ Inductive case :=
 | CServe (aesni : bool) (sites : list site) (dflt : bytes) (conn : option bytes)
          (tls : option bytes) (rhost : bytes) (obs_gov : lobs) (obs : sobs)
 (* real handshake against a started instance: per site (address, off?, sub-directives); client
-   SNI as sent, offered version range, Host header (None = HTTP/1.0 without Host);
+   default server name (-default-sni) in force, SNI as sent, offered version range, Host header
+   (empty for an HTTP/1.0 request without Host);
    observed: 0 start error class / handshake failure / negotiated version, certificate asked,
    response *)
-| CHandshake (aesni : bool) (sites : list (bytes * bytes * bool * list tlsopt)) (conn : bytes)
+| CHandshake (aesni : bool) (sites : list (bytes * bytes * bool * list tlsopt)) (conn : bytes) (dflt : bytes)
              (sni : bytes) (cmin cmax : N) (rhost : bytes)
              (obs_start : N) (obs_version : N) (obs_asked : bool) (obs : sobs).
 
@@ -750,20 +751,20 @@ Definition judge (c : case) : N :=
         | _ => lookup_spec dc [] cfgs dflt conn sni obs_gov && serve_spec sites dflt conn tls rhost obs_gov obs
         end in
       verdict agree spec
-  | CHandshake aesni raw conn sni cmin cmax rhost obs_start obs_version obs_asked obs =>
+  | CHandshake aesni raw conn dflt sni cmin cmax rhost obs_start obs_version obs_asked obs =>
       let dc := default_ciphers aesni in
       match setup_sites dc raw with
       | None => verdict (obs_start =? 9) true            (* a directive was rejected *)
       | Some sites =>
           let cfgs := map (fun s => Some (s_tls s)) sites in
-          let ml := model_lookup dc [] cfgs [] (Some conn) sni in
+          let ml := model_lookup dc [] cfgs dflt (Some conn) sni in
           (* spec, from the observations alone.  On the wire: version inside the range of a most
              specific site, certificate asked iff that site's policy says so, a site that demands
              certificates only answers on a connection where one was asked for; an instance that
              started has no TLS/plaintext mix and no two sites under one key with different
              protocol ranges or client-certificate policies *)
           let cs := some_cfgs cfgs in
-          let rk c := srank [] (Some conn) sni (key_of (host c)) in
+          let rk c := srank dflt (Some conn) sni (key_of (host c)) in
           let most_specific c := forallb (fun c' => opt_le (rk c) (rk c')) cs in
           let spec_started :=
             negb (mixed cfgs) &&
@@ -783,7 +784,7 @@ Definition judge (c : case) : N :=
           let spec :=
             if obs_start =? 0 then spec_started
             else if obs_start =? 8 then negb (mixed cfgs)                 (* plaintext listener *)
-            else lookup_spec dc [] cfgs [] (Some conn) sni (LErr obs_start) in
+            else lookup_spec dc [] cfgs dflt (Some conn) sni (LErr obs_start) in
           match fst ml with
           | Some (LErr e) => verdict (obs_start =? e) spec
           | Some LNil => verdict (obs_start =? 8) spec
@@ -799,7 +800,7 @@ Definition judge (c : case) : N :=
                          | Some v => if version_feasible b v then v else 0
                          | None => 0 end in
                 let asked := negb (v =? 0) && negb (b_cauth b =? 0) in
-                let out := if v =? 0 then SNoSite else sobs_of (serve sites [] (Some conn) (Some sni) rhost) in
+                let out := if v =? 0 then SNoSite else sobs_of (serve sites dflt (Some conn) (Some sni) rhost) in
                 (obs_version =? v) && Bool.eqb obs_asked asked && sobs_beq out obs in
               let agree := (obs_start =? 0) && existsb predicted cands in
               verdict agree spec
